@@ -69,11 +69,18 @@ def _iter_source_local(f, op, depth=0):
     return _root_local(f, op)
 
 
-def unordered_vectors(crate, f):
+def unordered_vectors(crate, f, returners=None):
     """locals (Vec) filled in the iteration order of an S1 source in f: {local: (source description, span)}"""
     out = {}
     # vectors collected from an S1 iterator and not sorted: iterating them is iterating in hash order
     tainted = {}
+    for bb, c in f.calls():
+        # the result of a local helper that returns such a vector unsorted is the same thing one call away
+        if returners and c.get("res") in returners and c.get("res_local"):
+            dl = place_local(c["dest"])
+            if "std::vec::Vec<" in f.local_ty(dl) and not sort_blocks(f, dl):
+                tainted[dl] = {"targs": ["the unsorted result of %s" % c["res"].split("::")[-1]], "span": c["span"]}
+                out.setdefault(dl, ("unsorted result of %s" % c["res"].split("::")[-1], c["span"]))
     for bb, c in f.calls():
         if c.get("fn") == "std::iter::Iterator::collect" and _is_s1(c.get("targs", [])):
             dl = place_local(c["dest"])
@@ -150,27 +157,40 @@ def r4a_unordered(ctx, only_fns=None, rule="R4a"):
         for bb, c in f.calls():
             if c.get("res_local"):
                 callers[c["res"]].append((f, bb, c))
+    # pass 1: local functions that return an unordered vector without sorting it on every path
+    returners = {}
+    for _round in range(3):
+        before = len(returners)
+        for f in crate.real_fns():
+            if f.id in returners:
+                continue
+            for v, (src, span) in sorted(unordered_vectors(crate, f, returners).items()):
+                holders = _moved_into(f, v)
+                if 0 not in holders:
+                    continue
+                sb = [b for h in holders for b in sort_blocks(f, h)]
+                if sb and not any(_value_reaches(f, v, rb, avoid=set(sb)) for rb in f.exits()):
+                    continue
+                returners[f.id] = (v, src, span)
+                break
+        if len(returners) == before:
+            break
     for f in crate.real_fns():
         if only_fns is not None and not any(f.root.endswith("::" + x) or f.id.endswith("::" + x) for x in only_fns):
             continue
-        uv = unordered_vectors(crate, f)
+        uv = unordered_vectors(crate, f, returners)
         if not uv:
             continue
-        dom = None
         for v, (src, span) in sorted(uv.items()):
             holders = _moved_into(f, v)
             returned = 0 in holders
-            printed = False
             if not returned:
-                # handed to a response / printed? (argument of a non-sorting call after the loop is not tracked: local use)
+                # consumed locally (argument of a non-sorting call after the loop is not tracked: local use)
                 continue
             n += 1
             key = "%s|%s|%s" % (rule, f.id, f.local_name(v) or "_%d" % v)
-            if dom is None:
-                dom = f.dominators()
             sb = [b for h in holders for b in sort_blocks(f, h)]
             rets = [b for b in f.exits()]
-            # return blocks reachable from a block that fills v
             ok = False
             if sb:
                 # must-pass-through: no path from a block that fills v to a return avoids every sort block
@@ -178,10 +198,15 @@ def r4a_unordered(ctx, only_fns=None, rule="R4a"):
             if ok:
                 r.ok(sample={"fn": f.id.split("::")[-1], "vector": f.local_name(v), "source": src, "sorted": "in function"})
                 continue
-            # all direct callers sort the returned value?
+            # every direct caller sorts the returned value, or consumes it locally (then the caller is examined in its own
+            # right: the result is an unordered vector there, see unordered_vectors)
             cs = callers.get(f.id, [])
-            if cs and all(_caller_sorts(cf, cbb, c) for cf, cbb, c in cs):
-                r.ok(sample={"fn": f.id.split("::")[-1], "vector": f.local_name(v), "sorted": "by every caller"})
+            if cs and all(_caller_sorts(cf, cbb, c) or 0 not in _moved_into(cf, place_local(c["dest"])) for cf, cbb, c in cs):
+                r.ok(sample={"fn": f.id.split("::")[-1], "vector": f.local_name(v), "sorted": "by every caller, or consumed there"})
+                continue
+            if cs and all(cf.id in returners for cf, cbb, c in cs if not _caller_sorts(cf, cbb, c) and 0 in _moved_into(cf, place_local(c["dest"]))):
+                # passed on unsorted by a caller that is itself reported (or discharged) under its own name
+                r.ok(sample={"fn": f.id.split("::")[-1], "vector": f.local_name(v), "sorted": "answerable at the caller"})
                 continue
             if key in REVIEWED:
                 r.review(key, REVIEWED[key])
